@@ -738,6 +738,11 @@ def search(ctx, deep, only=None):
         cls = f'{p.cls_name}.sample:{what}'
         if p.kind == 'wrapper' and what in WRAPPER_CONSEQUENCES and inst is not None and explained_by_seed_ignored(inst):
             cls = WRAPPER_CLASS
+            obs = {'symptom': f'{what}: {obs}',
+                   'explanation': 'Univariate.sample is not wrapped by @random_state and delegates to self._instance, which '
+                                  'get_instance(best_model) built without the seed: the call returns exactly what the unseeded '
+                                  '_instance returns on the global stream; the wrapper\'s random_state is never read nor advanced'}
+            req = 'two equal models with the same seed produce identical streams; the global state is left as it was'
         ctx.fail_input(f'{p.cls_name}.sample', dict(inp, proto=p.name), obs, req, cls)
 
     for _ in range(rounds):
